@@ -83,3 +83,40 @@ static void honest_run(const Plan *p, RunResult *r)
 }
 
 const Scenario g_scn_honest = { "honest", "C08", 1, honest_gen, honest_run };
+
+/* C19 companion: the closing side shuts down while the peer still has application data in flight
+ * (no stream oracle: what arrives where is not the point; the leak and state monitors are) */
+static void abrupt_gen(Plan *p, uint64_t run_seed, uint64_t variant, int tier)
+{
+	Rng g;
+	honest_gen(p, run_seed, variant, tier);
+	snprintf(p->scenario, sizeof(p->scenario), "abrupt");
+	rng_seed(&g, run_seed, 0x4ab);
+	p->early_close = 1;
+	p->capacity = 0; p->preempt_mean = 0;
+	/* make the last round flow towards the closing side */
+	Round *r = &p->rounds[p->nrounds - 1];
+	int in = p->closer == 0 ? DIR_S2C : DIR_C2S;
+	if (r->mode == RM_C2S_ACKED || r->mode == RM_S2C_ACKED) { r->mode = r->mode == RM_C2S_ACKED ? RM_C2S : RM_S2C; r->ack_every = r->ack_size = 0; }
+	if (r->mode != RM_DUPLEX && r->mode != in) {
+		r->mode = in;
+		r->n[in] = 1 + rng_below(&g, 3000); r->n[1 - in] = 0;
+		r->wchunk[in] = 0; r->rbuf_max[in] = 4096;
+	}
+}
+
+static void abrupt_run(const Plan *p, RunResult *r)
+{
+	static HonestOut o;
+	const CredSet *cs = creds_get((int)p->depth, p->proto == P_TLCP);
+	conn_run(p, cs, &o, NULL, NULL);
+	char what[256];
+	if (o.step_capped) { rr_violation(r, "no_termination", "step cap"); return; }
+	if (mon_state_violation(what, sizeof(what))) rr_violation(r, "state_corrupt", "%s", what);
+	r->nontrivial = o.hs_ret[0] == 1 && o.hs_ret[1] == 1;
+	r->nontrivial_id = g_sim.ileave;
+	snprintf(r->extra, sizeof(r->extra), "proto=%s mutual=%d depth=%d bytes=%llu", g_proto_names[p->proto], (int)p->mutual, (int)p->depth,
+		(unsigned long long)(o.wrote[0] + o.wrote[1]));
+}
+
+const Scenario g_scn_abrupt = { "abrupt", "C19", 1, abrupt_gen, abrupt_run };
